@@ -102,6 +102,12 @@ TWINS = [
  ("const_enum", "const enum CE { X = 2, Y = X * 3 }\nLOG([CE.X, CE.Y]);", "LOG([2, 6]);", ["L|a[n:2;n:6]"]),
  ("enum_in_function", "function f() { enum L { P = 10, Q } return [L.Q, L[10]]; }\nLOG(f());", "function f() { let L; (function (L) { L[L[\"P\"] = 10] = \"P\"; L[L[\"Q\"] = 11] = \"Q\"; })(L || (L = {})); return [L.Q, L[10]]; }\nLOG(f());", ["L|a[n:11;s:80]"]),
  ("enum_computed_string_concat", "enum M { A = 'x'.length, B = A << 2, C = ~B, D = -1 }\nLOG([M.A, M.B, M.C, M.D, M[-1], M[4]]);", "var M; (function (M) { M[M[\"A\"] = 'x'.length] = \"A\"; M[M[\"B\"] = 4] = \"B\"; M[M[\"C\"] = -5] = \"C\"; M[M[\"D\"] = -1] = \"D\"; })(M || (M = {}));\nLOG([M.A, M.B, M.C, M.D, M[-1], M[4]]);", ["L|a[n:1;n:4;n:-5;n:-1;s:68;s:66]"]),
+ ("namespace_multi_declarator_export", "namespace L { export const min = 1, max = min + 9, mid = (min + max) / 2; export let p = 7, q = p + 1; }\nLOG([L.min, L.max, L.mid, L.p, L.q, Object.keys(L).sort(), 'max' in L]);",
+  "var L; (function (L) { L.min = 1; L.max = L.min + 9; L.mid = (L.min + L.max) / 2; L.p = 7; L.q = L.p + 1; })(L || (L = {}));\nLOG([L.min, L.max, L.mid, L.p, L.q, Object.keys(L).sort(), 'max' in L]);", ["L|a[n:1;n:10;n:5.5;n:7;n:8;a[s:109,97,120;s:109,105,100;s:109,105,110;s:112;s:113];b:true]"]),
+ ("param_props_before_field_initialisers", "class P { y = this.x + 1; tag = 'h' + this.h; constructor(public x: number, readonly h = x * 2) {} }\nLOG([new P(4).y, new P(4).tag, new P(3, 5).tag, Object.keys(new P(1)).sort()]);",
+  "class P { constructor(x, h = x * 2) { this.x = x; this.h = h; this.y = this.x + 1; this.tag = 'h' + this.h; } }\nLOG([new P(4).y, new P(4).tag, new P(3, 5).tag, Object.keys(new P(1)).sort()]);", ["L|a[n:5;s:104,56;s:104,53;a[s:104;s:116,97,103;s:120;s:121]]"]),
+ ("param_props_before_fields_with_method", "class R { area = this.size(); constructor(public w: number, private k: number) {} size() { return this.w * this.k; } }\nLOG(new R(3, 4).area);",
+  "class R { constructor(w, k) { this.w = w; this.k = k; this.area = this.size(); } size() { return this.w * this.k; } }\nLOG(new R(3, 4).area);", ["L|n:12"]),
  ("param_props_order_and_body", "class T { log: string[] = []; constructor(public a: number, private b: number) { this.log.push('body:' + this.a + this.b); } }\nLOG(new T(1, 2).log);", "class T { constructor(a, b) { this.a = a; this.b = b; this.log = []; this.log.push('body:' + this.a + this.b); } }\nLOG(new T(1, 2).log);", ["L|a[s:98,111,100,121,58,49,50]"]),
 ]
 
@@ -127,13 +133,14 @@ def main(tier):
     got = M.run_jobs(exe, "prog", jobs, timeout=2400)
     ok = 0
     import collections
-    dist = collections.Counter()
+    dist = collections.Counter(); unjudged = []
     for j, (exp, feat, src, twin) in zip(jobs, meta):
         a = M.impl_events(got[j["id"]])
         if feat["kind"] == "twin-js": continue              # the JavaScript side of a twin is C01's business
         if twin is not None:
             tw = M.impl_events(got[twin])
-            if tw != exp: continue                          # the hand-desugared JS itself misbehaves: not judged here
+            if tw != exp:                                   # the hand-desugared JS itself misbehaves: not judged here
+                unjudged.append(feat.get("tag")); continue
         if a == exp: ok += 1; continue
         k = M.first_diff(exp, a)
         feat = dict(feat)
@@ -157,6 +164,8 @@ def main(tier):
     c.cov["evaluations"] = len(jobs)
     c.cov["distinct_nontrivial"] = len(jobs)
     c.cov["exhaustive"] = True
+    if unjudged: log("twins not judged because their JavaScript side does not produce the expected trace on this tree: %s" % sorted(set(unjudged)))
+    c.cov["twins_not_judged"] = sorted(set(unjudged))
     c.cov["rule"] = "every enum declaration with <= %d members over {auto, numeric, string, reference(+1), computed} members and an optional second block, every parameter-property list of <= 3 parameters x 4 modifiers x default x extends (TLC, exhaustive); %d namespace / abstract-class / enum programs against their hand-desugared JavaScript twins" % (3 if quick else 4, len(TWINS))
     c.assumptions += ["key ORDER is not compared (own-key order is hash order in this implementation, a C01 matter); key sets, forward and reverse lookups are",
                       "namespaces are covered by hand-written twins rather than by an enumerated tree grammar"]
